@@ -403,7 +403,11 @@ class Client(tyming.Tymee):
         Service receives until no more
         """
         while self.connected and not self.cutoff:
-            data = self.receive()
+            try:
+                data = self.receive()
+            except BrokenPipeError:  # far side has gone away
+                self.cutoff = True  # this signals need to close/reopen connection
+                break
             if not data:
                 break
             self.rxbs.extend(data)
@@ -477,7 +481,11 @@ class Client(tyming.Tymee):
         Attempt to send all of .txbs. Delete what is actually sent.
         """
         while self.txbs and self.connected and not self.cutoff:
-            count = self.send(self.txbs)
+            try:
+                count = self.send(self.txbs)
+            except BrokenPipeError:  # far side has gone away
+                self.cutoff = True  # this signals need to close/reopen connection
+                break
             del self.txbs[:count]
             break  # try again later
 
